@@ -3,7 +3,7 @@
    Z/N/positive/nat stay Coq datatypes.  No Extract Constant / Extract Inductive of our own. *)
 Require Extraction.
 Require Import ExtrOcamlBasic.
-From Verif Require Import Lib.Bytes Model.IPRange Model.Path Model.Fs Model.Session Model.IsoRead Model.Crypt Model.Listener Model.Timeout Model.Detect.
+From Verif Require Import Lib.Bytes Model.IPRange Model.Path Model.Fs Model.Session Model.IsoRead Model.Crypt Model.Listener Model.Timeout Model.Detect Model.Config.
 
 Extraction Language OCaml.
 Extraction "model.ml"
@@ -14,5 +14,6 @@ Extraction "model.ml"
   Listener.lrun
   Timeout.tserve
   Detect.open_file Detect.kind_read
+  Config.raw_value
   Crypt.new_encrypted Crypt.crypt_run Crypt.crypt_read_at
   Session.serve_all Session.step Session.parse_request Session.held.
